@@ -46,6 +46,7 @@ def gen_cases(tier, seed):
         dm, dcls = bases.rand_sym(rng, ntot, "psd" if i % 2 else "psd-lowrank")
         cases.append({"shells": shells, "dm": dm, "offset": [float(v) for v in rng.uniform(0, 1, size=3)], "tier": tier,
                       "classes": ["lmax:%d" % max(ls), "nsh:%d" % nsh, "types:" + "".join(tp), dcls], "cost": ntot * (3 if tier == "thorough" else 1)})
+    cases += bases.argrep_variants("C16", seed, tier, cases, 6, ok=lambda c: "shells" in c and c.get("kind") in (None, "whole", "kernel", "perm", "real"))  # constructor arguments in other in-memory representations
     return cases
 
 
